@@ -143,16 +143,16 @@ def execute(G, c):
                 first = v[0][0] if isinstance(v, list) and v and v[0] is not None else (v[0] if isinstance(v, tuple) else None)
             if (pexp and first != pexp[0]) or (not pexp and po.kind == "ok" and first is not None):
                 raise core.Failure("prior-walk-wrong", "first step of %r gave %r, subtree starts %r" % (calls[0], po, pexp[:2]))
-        elif po.kind != "ok" or [g[0] for g in po.value] != pexp:
+        elif po.kind != "ok" or [g[0] for g in drivers.walk_pairs(po.value, "first walk %r" % (calls[0],))] != pexp:
             raise core.Failure("prior-walk-wrong", "first walk %r on the session gave %r, subtree is %r" % (calls[0], po, pexp[:8]))
         counter["n"] = len(outs[1].requests)
     out = outs[-1]
     info = "%s(%s) [%s, %s, maxrep %d cap %d] over a MIB of %d entries" % (c["method"], base_txt, cfg.version, c["driver"], c["maxrep"], c["cap"], len(c["mib"]))
     if out.kind == "runaway":
-        raise core.Failure("walk-does-not-end", "%s: still going after %d requests; yielded %r" % (info, counter["n"], [x[0] for x in out.partial][:10]))
+        raise core.Failure("walk-does-not-end", "%s: still going after %d requests; yielded %r" % (info, counter["n"], [x[0] for x in drivers.walk_pairs(out.partial, info)][:10]))
     if out.kind != "ok":
         raise core.Failure("walk-raised:" + type(out.exc).__name__, "%s: raised %r after yielding %d items" % (info, out.exc, len(out.partial or [])))
-    got = out.value
+    got = drivers.walk_pairs(out.value, info)
     gk = [g[0] for g in got]
     ek = [e[0] for e in exp]
     if gk != ek:
